@@ -49,7 +49,11 @@ def execute(case, cid):
     seen_x = {}
     grid1 = {}
 
+    res_layout = case.get('res_layout', 'c')
+    mem = {}
+
     def model(params, ns, pts, **extra):
+        pts = int(pts)
         calls.append({'pts': int(pts), 'params': rats(list(params)), 'ns': [int(v) for v in ns],
                       'extra': [[k, rat(extra[k])] for k in sorted(extra)]})
         if case['kind'] == 'phi':
@@ -71,7 +75,16 @@ def execute(case, cid):
             vals.append(math.exp(q) if log else q)
         data = np.array(vals, dtype=float).reshape(sh)
         returned[pts] = rats(data.ravel())
+        if res_layout != 'c':
+            # the same logical values in a memory order that is not C-contiguous (Fortran order, transposed view, strided slice)
+            from .c14 import lay_out
+            data = lay_out(data, res_layout, 3, 777.25)
+            mem['c_contiguous'] = bool(data.flags['C_CONTIGUOUS'])
         if case['kind'] == 'spectrum':
+            if res_layout != 'c':
+                from .c14 import lay_out
+                return dadi.Spectrum(data, mask=lay_out(mask, res_layout, 3, True), mask_corners=False, pop_ids=ids, copy=False,
+                                     extrap_x=(x if case['xsrc'] == 'attr' else None))
             return dadi.Spectrum(data, mask=mask.copy(), mask_corners=False, pop_ids=ids,
                                  extrap_x=(x if case['xsrc'] == 'attr' else None))
         if case['xsrc'] == 'attr':
@@ -89,15 +102,29 @@ def execute(case, cid):
     def call(order):
         p_l = [pts_l[j] for j in order]
         xl = [xs[j] for j in order] if case['xsrc'] == 'explicit' else None
+        # container / number types of the arguments (the statement does not restrict them to lists of Python ints)
+        xk = case.get('x_kind', 'list')
+        if xl is not None and xk != 'list':
+            xl = tuple(xl) if xk == 'tuple' else np.array(xl)
         f = wrap(xl)
-        arg = p_l[0] if case['scalar'] else p_l
+        pk = case.get('pts_kind', 'list')
+        if case['scalar']:
+            arg = np.int64(p_l[0]) if pk == 'npint' else p_l[0]
+        else:
+            arg = {'list': p_l, 'tuple': tuple(p_l), 'array': np.array(p_l), 'npint': [np.int64(v) for v in p_l]}[pk]
         params = [float(Fraction(s)) for s in case['params']]
+        ak = case.get('params_kind', 'list')
+        ns = list(case['ns'])
+        if ak == 'tuple':
+            params, ns = tuple(params), tuple(ns)
+        elif ak == 'array':
+            params, ns = np.array(params), np.array(ns)
         kwargs = {k: float(Fraction(v)) for k, v in case['extra']}
         if case['noex']:
             kwargs['no_extrap'] = True
         if case['kw']:
-            return f(params, list(case['ns']), pts=arg, **kwargs)
-        return f(params, list(case['ns']), arg, **kwargs)
+            return f(params, ns, pts=arg, **kwargs)
+        return f(params, ns, arg, **kwargs)
 
     def flat(res):
         return rats(np.asarray(getattr(res, 'data', res), dtype=float).ravel())
@@ -105,6 +132,8 @@ def execute(case, cid):
     inp = {k: case[k] for k in ('log', 'kw', 'scalar', 'noex', 'xsrc', 'fm', 'pts', 'xs', 'kind', 'sh', 'mask', 'ids', 'coef',
                                  'perm', 'params', 'ns', 'extra', 'tag')}
     inp['use_logfunc'] = bool(case.get('use_logfunc'))
+    for key, dflt in (('pts_kind', 'list'), ('x_kind', 'list'), ('params_kind', 'list'), ('res_layout', 'c')):
+        inp[key] = case.get(key, dflt)
     rec = {'id': cid, 'op': 'no_extrap' if case['noex'] else 'extrap_log' if log else 'extrap_lin', 'site': 'Numerics.make_extrap_log_func' if (log and case.get('use_logfunc')) else 'Numerics.make_extrap_func',
            'in': inp}
     k = len(pts_l)
@@ -120,6 +149,8 @@ def execute(case, cid):
             out = {'v': flat(res), 'm': [bool(b) for b in np.ma.getmaskarray(res).ravel()],
                    'ids': [str(s) for s in (getattr(res, 'pop_ids', None) or [])], 'calls': list(calls)}
     inp['ys'] = [returned.get(p, []) for p in pts_l]
+    if mem:
+        inp['mem'] = mem
     if case['kind'] == 'phi':
         inp['xs'] = [seen_x.get(p, 'nan') for p in pts_l]          # what the results carried as .extrap_x
         inp['grid1'] = [grid1.get(p, 'nan') for p in pts_l]        # first interior point of the grid used
@@ -180,11 +211,11 @@ def _coefs(rng, n, k, log, tag):
     return out
 
 
-def _fallback_coefs(rng, n, k, log, xmin, fm):
+def _fallback_coefs(rng, n, k, log, xmin, fm, kinds=None):
     """Entries whose extrapolation lands decisively more / less than fm decades from the finest-grid value."""
     out = []
     for e in range(n):
-        kind = rng.choice(['far_low', 'far_high', 'near'])
+        kind = kinds[e % len(kinds)] if kinds else rng.choice(['far_low', 'far_high', 'near'])
         if log:
             # ln y = c0 + c1 x ; distance = |c1| xmin / ln 10 decades
             dec = {'far_low': fm + rng.uniform(0.5, 2.0), 'far_high': -(fm + rng.uniform(0.5, 2.0)), 'near': rng.uniform(-0.8, 0.8) * fm}[kind]
@@ -255,15 +286,28 @@ def cases(ctx):
         c['xs'] = [c['xs'][j] for j in order]
         return c
 
-    # 1. every path of the dispatch graph (the call set of ExtrapMC's sorted orderings)
-    for log, kw, noex, xsrc, kind in itertools.product([False, True], [False, True], [False, True], ['attr', 'explicit', 'none'], ['array', 'spectrum']):
-        if xsrc == 'none' and kind == 'spectrum':
+    # 1. every path of the dispatch graph (the call set of ExtrapMC's sorted orderings); in log mode through both
+    #    make_extrap_log_func and make_extrap_func(extrap_log=True); labels, mask styles, shapes, x conventions and
+    #    forwarded keyword arguments are cycled deterministically so that each occurs with every k
+    idx = 0
+    styles = ['grid', 'inv', 'dyadic', 'rand']
+    for log, logfunc, kw, noex, xsrc, kind in itertools.product([False, True], [False, True], [False, True], [False, True],
+                                                              ['attr', 'explicit', 'none'], ['array', 'spectrum']):
+        if (xsrc == 'none' and kind == 'spectrum') or (logfunc and not log):
             continue                     # a Spectrum always has the attribute
         for form in ['scalar'] + list(range(0, 8)):
             k = 1 if form == 'scalar' else form
-            c = base(k=k, log=log, kind=kind, tag='exact')
-            c.update(kw=kw, noex=noex, xsrc=xsrc, scalar=(form == 'scalar'))
+            shapes = [[4], [3, 3], [6], [2, 2, 3], [2, 4]] if kind == 'spectrum' else [[1], [3], [2, 3], [5]]
+            c = base(k=k, log=log, kind=kind, tag='exact', sh=shapes[idx % len(shapes)], style=styles[(idx // 2) % 4])
+            n = len(c['mask'])
+            if kind == 'spectrum':
+                c['ids'] = LABELS[:len(c['sh'])] if idx % 2 == 0 else []
+                mstyle = idx % 3
+                c['mask'] = [mstyle >= 1 and j in (0, n - 1) or (mstyle == 2 and j % 3 == 1) for j in range(n)]
+            c['extra'] = [['scale', rat(2.5)]] if idx % 4 == 1 else []
+            c.update(kw=kw, noex=noex, xsrc=xsrc, scalar=(form == 'scalar'), use_logfunc=logfunc)
             out.append(c)
+            idx += 1
     # 2. orderings: all k! orderings for small k, sampled ones above; each also repeated under a permutation
     full = 4 if ctx.quick else 6
     nrand = 12 if ctx.quick else 60
@@ -293,6 +337,66 @@ def cases(ctx):
         c['kw'] = rng.random() < 0.3
         c['xsrc'] = rng.choice(['attr', 'attr', 'explicit'])
         out.append(c)
+    # 5. boundary set (deterministic in both tiers): every element of the stated domain occurs at least once
+    def fixed(k, log, kind, coef, tag, sh=None, fm=10, style='inv', order=None, **kw):
+        n = len(coef)
+        sh = sh or [n]
+        pts_l = [10 * (j + 2) + j * j for j in range(k)]                  # distinct, increasing
+        xs = _xs_for(rng, style, pts_l)
+        c = {'log': log, 'kw': False, 'scalar': False, 'noex': False, 'xsrc': 'attr', 'fm': fm, 'pts': pts_l, 'xs': rats(xs),
+             'kind': kind, 'sh': sh, 'mask': [False] * n, 'ids': (LABELS[:len(sh)] if kind == 'spectrum' else []), 'coef': coef,
+             'perm': [((j + 1) % k) + 1 for j in range(k)], 'params': rats([1.5, 2.0]), 'ns': [v - 1 for v in sh], 'extra': [], 'tag': tag,
+             'use_logfunc': False}
+        c.update(kw)
+        if order is not None:
+            c = reorder(c, order)
+        return c
+
+    def ladder(k, log, upto):
+        """entry e has exact degree e (e = 0..upto): all degrees below k, degree k-1 = the largest exact one, and degree k"""
+        cs = []
+        for e in range(upto + 1):
+            c = [Fraction(3 + e, 2) if not log else Fraction(e - 2, 2)] + [Fraction((-1) ** (j + e) * (j + 2), j + 1) for j in range(1, e + 1)]
+            cs.append([rat(v) for v in c])
+        return cs
+    for k in range(1, 7):
+        for log in (False, True):
+            for kind in ('array', 'spectrum'):
+                for logfunc in ([False, True] if log else [False]):
+                    out.append(fixed(k, log, kind, ladder(k, log, k), 'degree-ladder', style=['inv', 'grid', 'dyadic'][k % 3],
+                                     use_logfunc=logfunc, kw=(k % 2 == 0), xsrc=('explicit' if k % 3 == 0 else 'attr')))
+    # fallback with the finest grid at every position of the list; entries far below / far above / near; every fail_mag
+    for k in range(2, 7):
+        for pos in range(k):
+            for log in (False, True):
+                fm = [1, 2, 3, 10][(k + pos) % 4]
+                c = fixed(k, log, 'spectrum' if (k + pos) % 2 else 'array', [['1']] * 3, 'fallback-position', fm=fm, style='inv')
+                xmin = min(float(Fraction(v)) for v in c['xs'])
+                c['coef'] = _fallback_coefs(rng, 3, k, log, xmin, fm, kinds=['far_low', 'far_high', 'near'])
+                order = [j for j in range(k) if j != k - 1]
+                order.insert(pos, k - 1)                                  # largest pts = smallest x goes to position pos
+                out.append(reorder(c, order))
+    # container and number types of pts / the explicit x list / the other arguments
+    for k in (1, 3, 5):
+        for log in (False, True):
+            for pk, xk, ak in (('tuple', 'tuple', 'tuple'), ('array', 'array', 'array'), ('npint', 'list', 'list'), ('array', 'list', 'tuple')):
+                for kwd in (False, True):
+                    out.append(fixed(k, log, 'array' if pk == 'array' else 'spectrum', ladder(k, log, k - 1), 'containers', pts_kind=pk, x_kind=xk,
+                                     params_kind=ak, xsrc=('explicit' if xk != 'list' else 'attr'), kw=kwd, use_logfunc=log and not kwd))
+    out.append(fixed(1, False, 'spectrum', ladder(1, False, 0), 'containers', pts_kind='npint', scalar=True))
+    out.append(fixed(1, True, 'array', ladder(1, True, 0), 'containers', pts_kind='npint', scalar=True, kw=True, use_logfunc=True))
+    # signs: a model that is negative everywhere (ratio to the finest grid positive), value exactly 0 at x = 0, mixed signs
+    for k in range(2, 7):
+        neg = [[rat(-Fraction(5 + e, 2))] + [rat(Fraction((-1) ** j, 4 * (j + 1))) for j in range(1, min(e, k - 1) + 1)] for e in range(3)]
+        out.append(fixed(k, False, 'array' if k % 2 else 'spectrum', neg, 'negative-values', style='dyadic'))
+        zero = [['0', '1', '-1/2'][:max(2, min(3, k))], ['0', '-2'], ['4', '-1']]
+        out.append(fixed(k, False, 'spectrum' if k % 2 else 'array', zero, 'zero-at-origin', style='dyadic', fm=[1, 10][k % 2]))
+    # memory layout of the model's results (Fortran order, transposed view, strided slice)
+    for lay in ('fortran', 'transpose', 'slice'):
+        for k in (2, 3, 6):
+            for log in (False, True):
+                for kind in ('array', 'spectrum'):
+                    out.append(fixed(k, log, kind, ladder(5, log, 5), 'result-layout', sh=[2, 3], res_layout=lay, use_logfunc=log and k == 3))
     # 4. real dadi models (phi_1D -> Spectrum.from_phi): x comes from the results' extrap_x = grid[1]
     for t in range(8 if ctx.quick else 40):
         k = 1 + t % 6
